@@ -14,7 +14,7 @@ BOUND = {
              "delimiter alphabet outside the listed finding classes, folding at random places); both providers",
     "thorough": "the same with 3000 generated calendars",
 }
-DELIMS = list(" ,;:\"'=\\-_%nN/") + ["ä", "€", "x", "y", "1", "\t"]
+DELIMS = list(" ,;:\"'=\\-_%nN/^") + ["ä", "€", "x", "y", "1", "\t"]
 
 
 def fixtures():
